@@ -793,7 +793,8 @@ impl RADAU {
                 }
 
                 // Sophisticated step size control
-                if (x + hnew / quot1 - xend) * posneg >= 0.0 {
+                // (the same 0.01% stretch as for the first step: a step that ends within rounding of xend lands on it)
+                if (x + 1.0001 * hnew / quot1 - xend) * posneg >= 0.0 {
                     h = xend - x;
                     last = true;
                 } else {
